@@ -612,6 +612,80 @@ Proof.
   - apply res_bind_ok in E. destruct E as ([s3 r] & _ & E). injection E as <- <-. reflexivity.
 Qed.
 
+(* ... and nothing to the remote players *)
+Lemma resim_rsends : forall n i p mc o p' o',
+  resim_go predict n i p mc o = Ok (p', o') -> o_remote_sends o' = o_remote_sends o.
+Proof.
+  induction n as [|n IH]; intros i p mc o p' o' E; cbn [resim_go] in E.
+  - injection E as <- <-. reflexivity.
+  - apply res_bind_ok in E. destruct E as ([s1 ins] & _ & E).
+    apply res_bind_ok in E. destruct E as ([s2 o2] & E2 & E).
+    apply IH in E. cbn [add_req o_remote_sends] in E. rewrite E.
+    assert (Hsv : forall s2' o2', res_bind (save_current_state s1) (fun '(s2, r) => Ok (s2, add_req o r)) = Ok (s2', o2') ->
+                    o_remote_sends o2' = o_remote_sends o).
+    { intros s2' o2' X. apply res_bind_ok in X. destruct X as ([s3 r] & _ & X). injection X as <- <-. reflexivity. }
+    destruct (ps_sparse p).
+    + destruct (s_current s1 =? mc); [exact (Hsv _ _ E2)|injection E2 as <- <-; reflexivity].
+    + destruct (0 <? i); [exact (Hsv _ _ E2)|injection E2 as <- <-; reflexivity].
+Qed.
+
+Lemma adjust_rsends : forall p fi mc o p' o',
+  adjust_gamestate predict p fi mc o = Ok (p', o') -> o_remote_sends o' = o_remote_sends o.
+Proof.
+  intros p fi mc o p' o' E. unfold adjust_gamestate in E. destruct (_ <? _); [discriminate|].
+  apply res_bind_ok in E. destruct E as ([s1 r] & _ & E).
+  apply res_bind_ok in E. destruct E as ([p2 o2] & Er & E).
+  destruct (negb _); [discriminate|]. injection E as <- <-.
+  apply resim_rsends in Er. exact Er.
+Qed.
+
+Lemma handle_rollback_rsends : forall p cf o p1 o1,
+  handle_rollback_and_save predict p cf o = Ok (p1, o1) -> o_remote_sends o1 = o_remote_sends o.
+Proof.
+  intros p cf o p1 o1 E. unfold handle_rollback_and_save in E.
+  apply res_bind_ok in E. destruct E as ([p2 o2] & E2 & E).
+  assert (H2 : o_remote_sends o2 = o_remote_sends o).
+  { destruct (_ =? NULL); [injection E2 as <- <-; reflexivity|].
+    apply res_bind_ok in E2. destruct E2 as ([p3 o3] & Ea & E2). injection E2 as <- <-. exact (adjust_rsends _ _ _ _ _ _ Ea). }
+  rewrite <- H2. destruct (ps_sparse p2).
+  - unfold check_last_saved_state in E. destruct (_ <? ps_maxpred p2); [injection E as <- <-; reflexivity|].
+    apply res_bind_ok in E. destruct E as ([p3 o3] & E3 & E). destruct (negb _); [discriminate|]. injection E as <- <-.
+    destruct (_ <=? cf).
+    + apply res_bind_ok in E3. destruct E3 as ([s3 r] & _ & E3). injection E3 as <- <-. reflexivity.
+    + exact (adjust_rsends _ _ _ _ _ _ E3).
+  - apply res_bind_ok in E. destruct E as ([s3 r] & _ & E). injection E as <- <-. reflexivity.
+Qed.
+
+
+Lemma spec_send_rsends : forall n p cf o p' o', spec_send_go n p cf o = Ok (p', o') ->
+  o_remote_sends o' = o_remote_sends o /\ ps_outgoing p' = ps_outgoing p /\ ps_last_sent_out p' = ps_last_sent_out p.
+Proof.
+  induction n as [|n IH]; intros p cf o p' o' E; cbn [spec_send_go] in E.
+  - injection E as <- <-. repeat split.
+  - destruct (cf <? ps_next_spec p); [injection E as <- <-; repeat split|].
+    apply res_bind_ok in E. destruct E as (ins & _ & E).
+    destruct (negb _); [discriminate|]. destruct (negb _); [discriminate|].
+    apply IH in E. destruct E as (E1 & E2 & E3). cbn [with_next_spec ps_outgoing ps_last_sent_out] in E2, E3.
+    split; [|split; assumption]. rewrite E1. destruct (existsb _ _); reflexivity.
+Qed.
+
+(* what send_ready_outgoing_inputs_to_remotes sends: rounds of (frame, every local player's held input for it) *)
+Lemma send_ready_outgoing_out : forall p o p' o' gs,
+  send_ready_outgoing p o = Ok (p', o') -> OIg p gs ->
+  (forall h, In h (local_handles p) -> exists gh, nth_error gs (Z.to_nat h) = Some gh) ->
+  OIg p' gs /\ exists rounds, o_remote_sends o' = o_remote_sends o ++ rounds /\ rounds_ok (local_handles p) gs rounds.
+Proof.
+  intros p o p' o' gs E HO Hgs. unfold send_ready_outgoing in E.
+  destruct (ps_remotes p) as [|e0 rest] eqn:Er.
+  - injection E as <- <-. split; [exact HO|]. exists []. rewrite app_nil_r. split; [reflexivity|constructor].
+  - assert (Hr : ps_remotes p <> []) by (rewrite Er; discriminate). specialize (HO Hr).
+    destruct (local_handles p) as [|h0 hs] eqn:El.
+    + injection E as <- <-. split; [intros _; exact HO|]. exists []. rewrite app_nil_r. split; [reflexivity|constructor].
+    + rewrite <- El in E, Hgs |- *.
+      destruct (send_ready_go_out _ _ _ _ _ gs E HO ltac:(rewrite El; discriminate) Hgs) as (HO' & _ & rounds & R1 & _ & _ & R4).
+      split; [intros _; exact HO'|]. exists rounds. split; [exact R1|exact R4].
+Qed.
+
 (* the invariant between the game's history and the session, at call boundaries *)
 Definition TI (p : p2p) (gs : list ghost) (G : ghist) : Prop :=
   glen G = s_current (ps_sync p) /\
@@ -637,6 +711,25 @@ Definition HRti (p : p2p) (gs : list ghost) (cf : Z) (o : pout) (G : ghist) : Pr
     glen (replay_hist G R) = s_current (ps_sync p) /\ PNl (s_current (ps_sync p)) (s_queues (ps_sync p1)) gs /\
     Forall (truthful_lt (s_current (ps_sync p)) gs) (adv_frames G R).
 
+Lemma QS_local_gs : forall sp w d p gs, QSg sp w d p gs ->
+  forall h, In h (local_handles p) -> exists gh, nth_error gs (Z.to_nat h) = Some gh.
+Proof.
+  intros sp w d p gs HQS h Hin. apply (local_handles_spec p h (QS_nplayers _ _ _ _ _ HQS)) in Hin. destruct Hin as (Hr & _).
+  destruct (qs_n _ _ _ _ HQS) as (Hn1 & _). destruct (nth_error gs (Z.to_nat h)) as [gh|] eqn:E; [eauto|]. apply nth_error_None in E. lia.
+Qed.
+
+Lemma local_handles_rest : forall p p', p_rest p p' -> local_handles p' = local_handles p.
+Proof.
+  intros p p' (A & _ & _ & _ & _ & B & C & _). unfold local_handles, kind_at. rewrite A, B, C. reflexivity.
+Qed.
+
+Lemma spec_sends_rsends : forall p cf o p' o', send_confirmed_inputs_to_spectators p cf o = Ok (p', o') ->
+  o_remote_sends o' = o_remote_sends o.
+Proof.
+  intros p cf o p' o' E. unfold send_confirmed_inputs_to_spectators in E.
+  destruct (ps_spectators p); [injection E as <- <-; reflexivity|]. apply spec_send_rsends in E. tauto.
+Qed.
+
 Lemma advance_rollback_timeline_gen : forall sp p gs w d o p' o' G,
   advance_rollback_frame predict p o = Ok (p', o') ->
   QSg sp w d p gs -> Forall (fun c => cs_last c < I32MAX) (ps_status p) ->
@@ -648,7 +741,9 @@ Lemma advance_rollback_timeline_gen : forall sp p gs w d o p' o' G,
     hist_step d (ps_pending p) (local_handles p) gs gs' /\ ps_kinds p' = ps_kinds p /\
     Forall (truthful_lt (s_current (ps_sync p')) gs') (adv_frames G R) /\
     exists cf, confirmed_frame p = Ok cf /\ o_spec_sends o' = o_spec_sends o ++ spec_sent p gs cf /\
-               ps_next_spec p' = next_spec_after p cf /\ ps_spectators p' = ps_spectators p.
+               ps_next_spec p' = next_spec_after p cf /\ ps_spectators p' = ps_spectators p /\
+               (OIg p gs -> OIg p' gs' /\ exists rounds, o_remote_sends o' = o_remote_sends o ++ rounds /\
+                                                         rounds_ok (local_handles p) gs' rounds).
 Proof.
   intros sp p gs w d o p' o' G E HQS Hbnd Hpend Hroll (HG & HGI & HPN).
   destruct (rollback_confirm_gen predict sp p gs w d o HQS Hbnd)
@@ -693,7 +788,7 @@ Proof.
   { apply Forall_forall. intros h Hin. pose proof Hin as Hin2. apply (local_handles_spec p3 h Hnp3) in Hin2.
     destruct Hin2 as (Hr & Hk). split; [lia|]. split; [exact Hk|]. apply Hpend3. exact Hin. }
   destruct (register_go_progress sp (local_handles p3) w d p3 gs3 HQS3 Hcl3 (local_handles_nodup p3) Hall)
-    as (p4 & gs4 & E4 & HQS4 & Hcl4 & Hrest4 & Hc4 & HL4 & Hdone4 & Hgrow4 & Hhist4).
+    as (p4 & gs4 & E4 & HQS4 & Hcl4 & Hrest4 & Hc4 & HL4 & Hdone4 & Hgrow4 & Hhist4 & HO4).
   rewrite Hpe3, Hlh3 in Hhist4.
   assert (Hhist : hist_step d (ps_pending p) (local_handles p) gs gs4).
   { intros h0 gh' A. destruct (Hhist4 h0 gh' A) as (gh3 & A3 & B3).
@@ -702,6 +797,17 @@ Proof.
   destruct (send_ready_outgoing_ok p4 o2) as (p5 & o5 & E5 & O5). rewrite E5 in E. cbn [res_bind] in E.
   pose proof (QS_out_only _ _ _ _ _ _ HQS4 O5) as HQS5.
   assert (Hs5 : ps_sync p5 = ps_sync p4) by (rewrite O5; reflexivity).
+  (* what goes out to the remote players *)
+  assert (HOUT : OIg p gs -> OIg p5 gs4 /\ exists rounds, o_remote_sends o5 = o_remote_sends o ++ rounds /\
+                                                          rounds_ok (local_handles p) gs4 rounds).
+  { intros HO.
+    assert (HO3 : OIg p3 gs3).
+    { intros Hr3. assert (Hr : ps_remotes p <> []) by (unfold p3 in Hr3; rewrite Hp2, Hshape in Hr3; exact Hr3).
+      eapply OI_same; [exact (HO Hr)| | |exact Hlh3|exact Hmap3]; unfold p3; rewrite Hp2, Hshape; reflexivity. }
+    pose proof (local_handles_rest _ _ Hrest4) as Hlh4. rewrite Hlh3 in Hlh4.
+    destruct (send_ready_outgoing_out p4 o2 p5 o5 gs4 E5 (HO4 HO3) (QS_local_gs _ _ _ _ _ HQS4)) as (HO5 & rounds & Q1 & Q2).
+    split; [exact HO5|]. exists rounds. rewrite Hlh4 in Q2. split; [|exact Q2].
+    rewrite Q1, (spec_sends_rsends _ _ _ _ _ Es), (handle_rollback_rsends _ _ _ _ _ Er). reflexivity. }
   assert (Ho5 : o_requests o5 = o_requests o1 /\ o_spec_sends o5 = o_spec_sends o ++ spec_sent p gs cf).
   { destruct (send_ready_outgoing_frame _ _ _ _ E5) as (_ & _ & X1 & X2). split; [congruence|]. rewrite X2, Hsent, Hspec_o1. reflexivity. }
   destruct Ho5 as (Ho5 & Hsp5).
@@ -728,7 +834,7 @@ Proof.
   set (L4 := s_last_confirmed s4) in *.
   set (fa := if L4 =? NULL then s_current s4 else s_current s4 - L4) in *.
   destruct (fa <? w) eqn:Eg.
-  2:{ injection E as <- <-. exists gs4, R1. split; [rewrite Ho5; exact Ho1|]. split; [exact HQS5|]. split; [|split; [exact Hhist|split; [congruence|split; [rewrite Hs5; fold s4; rewrite Hc4; exact HTR4|exists cf; split; [exact Ecf|split; [exact Hsp5|split; [exact Hns5|exact Hss5]]]]]]].
+  2:{ injection E as <- <-. exists gs4, R1. split; [rewrite Ho5; exact Ho1|]. split; [exact HQS5|]. split; [|split; [exact Hhist|split; [congruence|split; [rewrite Hs5; fold s4; rewrite Hc4; exact HTR4|exists cf; split; [exact Ecf|split; [exact Hsp5|split; [exact Hns5|split; [exact Hss5|exact HOUT]]]]]]]].
       unfold TI. rewrite Hs5. fold s4. rewrite Hc4. split; [exact HG1|]. split; [exact HGI4|exact HPN4]. }
   pose proof HQS5 as [Hw5 Hd5 Hmode5 Hn5 Hconn5 Hgos5 HQ5 Hlast5 Hfr5 Hkinds5 Hpe5 Hsok5].
   rewrite Hs5 in HQ5, Hfr5. fold s4 L4 in HQ5, Hfr5. rewrite Hc4 in HQ5, Hfr5.
@@ -772,7 +878,9 @@ Proof.
       * exact HK.
     + intros h pi X. discriminate X.
     + eapply spec_ok_grow; [exact Hsok5|reflexivity|reflexivity|cbn; rewrite Hs5; reflexivity|apply grow_refl].
-  - split; [|split; [exact Hhist|split; [cbn [with_sync with_pending ps_kinds]; congruence|split; [|exists cf; split; [exact Ecf|split; [cbn [add_req o_spec_sends]; exact Hsp5|split; [cbn; exact Hns5|cbn; exact Hss5]]]]]]].
+  - split; [|split; [exact Hhist|split; [cbn [with_sync with_pending ps_kinds]; congruence|split; [|exists cf; split; [exact Ecf|split; [cbn [add_req o_spec_sends]; exact Hsp5|split; [cbn; exact Hns5|split; [cbn; exact Hss5|]]]]]]]].
+    3:{ intros HO. destruct (HOUT HO) as (HO5 & rounds & Q1 & Q2). split; [|exists rounds; split; [exact Q1|exact Q2]].
+        intros Hr. eapply OI_same; [exact (HO5 Hr)|reflexivity|reflexivity|reflexivity|reflexivity]. }
     2:{ cbn [with_sync with_pending ps_sync advance_frame with_current with_queues s_current]. rewrite Hc4.
         rewrite adv_frames_app. cbn [adv_frames]. apply Forall_app. split.
         - eapply Forall_impl; [|exact HTR4]. intros fi (Hlt & Ht). split; [lia|exact Ht].
@@ -810,7 +918,9 @@ Lemma advance_rollback_timeline : forall p gs g w d o p' o' G,
     hist_step d (ps_pending p) (local_handles p) gs gs' /\ ps_kinds p' = ps_kinds p /\
     Forall (truthful_lt (s_current (ps_sync p')) gs') (adv_frames G R) /\
     exists cf, confirmed_frame p = Ok cf /\ o_spec_sends o' = o_spec_sends o ++ spec_sent p gs cf /\
-               ps_next_spec p' = next_spec_after p cf /\ ps_spectators p' = ps_spectators p.
+               ps_next_spec p' = next_spec_after p cf /\ ps_spectators p' = ps_spectators p /\
+               (OIg p gs -> OIg p' gs' /\ exists rounds, o_remote_sends o' = o_remote_sends o ++ rounds /\
+                                                         rounds_ok (local_handles p) gs' rounds).
 Proof.
   intros p gs g w d o p' o' G E HQS HJI Hw1p Hbnd Hpend HTI.
   apply (advance_rollback_timeline_gen false p gs w d o p' o' G E HQS Hbnd Hpend); [|exact HTI].
@@ -903,20 +1013,35 @@ Qed.
 (* the cells invariant of dense saving in rollback mode (the window is at least one frame) *)
 Definition JI1 (w : Z) (p : p2p) (g : game) : Prop := 1 <= w /\ JI w p g.
 
+(* the save of frame 0 at the start of the first advance_frame leaves the outgoing bookkeeping alone *)
+Lemma first_save_out : forall p (b : bool) p1 o1,
+  (if b then res_bind (save_current_state (ps_sync p)) (fun '(s1, r) => Ok (with_sync p s1, add_req out0 r))
+   else Ok (p, out0)) = Ok (p1, o1) ->
+  ps_outgoing p1 = ps_outgoing p /\ ps_last_sent_out p1 = ps_last_sent_out p /\ o_remote_sends o1 = [].
+Proof.
+  intros p b p1 o1 E. destruct b.
+  - apply res_bind_ok in E. destruct E as ([s1 r] & _ & E). injection E as <- <-. repeat split.
+  - injection E as <- <-. repeat split.
+Qed.
+
+(* what one advance_frame sends to the remote players *)
+Definition sends_adv (p : p2p) (gs gs' : list ghost) (p' : p2p) (o : pout) : Prop :=
+  OIg p gs -> OIg p' gs' /\ rounds_ok (local_handles p) gs' (o_remote_sends o).
+
 Lemma advance_timeline : forall p gs g w d p' o r G,
   advance predict p = Ok (p', o, r) ->
   QS w d p gs -> JI1 w p g -> Forall (fun c => cs_last c < I32MAX) (ps_status p) ->
   Forall (fun c => cs_last c + 1 < I32MAX) (ps_status p) -> TI p gs G ->
   exists gs', QS w d p' gs' /\ TI p' gs' (replay_hist G (o_requests o)) /\
     hist_step d (ps_pending p) (local_handles p) gs gs' /\ ps_kinds p' = ps_kinds p /\ spec_step p gs' o p' /\
-    Forall (truthful_lt (s_current (ps_sync p')) gs') (adv_frames G (o_requests o)).
+    Forall (truthful_lt (s_current (ps_sync p')) gs') (adv_frames G (o_requests o)) /\ sends_adv p gs gs' p' o.
 Proof.
   intros p gs g w d p' o r G E HQS (Hw1p & HJI) Hbnd _ HTI.
   pose proof HQS as [Hw Hd Hmode Hn Hconn Hgos HQ Hlast Hfr Hkinds Hpe Hsok].
   destruct Hw as (Hw1 & Hw2 & Hw3). destruct Hmode as (Hrun & Hsp & Hdf).
   unfold advance in E. rewrite Hrun in E. cbn [negb] in E.
   destruct (forallb _ (local_handles p)) eqn:Efa; cbn [negb] in E.
-  2:{ injection E as <- <- <-. exists gs. split; [exact HQS|]. split; [exact HTI|]. split; [apply hist_step_refl|]. split; [reflexivity|]. split; [apply spec_step_none; [exact Hsok|reflexivity..]|constructor]. }
+  2:{ injection E as <- <- <-. exists gs. split; [exact HQS|]. split; [exact HTI|]. split; [apply hist_step_refl|]. split; [reflexivity|]. split; [apply spec_step_none; [exact Hsok|reflexivity..]|split; [constructor|intros HO; split; [exact HO|constructor]]]. }
   assert (Hpend : forall h, In h (local_handles p) -> exists pi, assoc_get (ps_pending p) h = Some pi).
   { intros h Hin. rewrite forallb_forall in Efa. specialize (Efa h Hin).
     destruct (assoc_get (ps_pending p) h); [eauto|discriminate]. }
@@ -943,15 +1068,20 @@ Proof.
       + intros G0. reflexivity.
     - exists p, out0. split; [reflexivity|]. split; [exact HQS|]. split; [exact HJI|].
       split; [reflexivity|]. split; [reflexivity|]. split; [reflexivity|]. split; [reflexivity|]. split; [exact HTI|]. split; [intros G0; reflexivity|repeat split]. }
-  destruct Hfirst as (p1 & o1 & E1 & HQS1 & HJI1 & Hst1 & Hlh1 & Hpe1 & Hrm1 & HTI1 & Hrep1 & Hkk1 & Hns1 & Hss1 & Hos1 & Hadv1). rewrite E1 in E. cbn [res_bind] in E.
+  destruct Hfirst as (p1 & o1 & E1 & HQS1 & HJI1 & Hst1 & Hlh1 & Hpe1 & Hrm1 & HTI1 & Hrep1 & Hkk1 & Hns1 & Hss1 & Hos1 & Hadv1).
+  pose proof (first_save_out _ _ _ _ E1) as (Hog1 & Hls1 & Hrs1).
+  rewrite E1 in E. cbn [res_bind] in E.
   rewrite (update_disconnects_noop p1) in E; [|rewrite Hst1; exact Hconn|rewrite Hrm1; exact Hgos]. cbn [res_bind] in E.
   destruct (advance_rollback_frame predict p1 o1) as [[p3 o3]| |] eqn:E3; cbn [res_bind] in E; try discriminate.
   injection E as <- <- <-.
-  destruct (advance_rollback_timeline p1 gs g w d o1 p3 o3 G E3 HQS1 HJI1 Hw1p) as (gs' & R & Ho & HQS' & HTI' & Hh' & Hkk' & HTR' & cf & Ecf & Hsent & Hns' & Hss'); [| |exact HTI1|].
+  destruct (advance_rollback_timeline p1 gs g w d o1 p3 o3 G E3 HQS1 HJI1 Hw1p) as (gs' & R & Ho & HQS' & HTI' & Hh' & Hkk' & HTR' & cf & Ecf & Hsent & Hns' & Hss' & Hout'); [| |exact HTI1|].
   { rewrite Hst1. exact Hbnd. }
   { intros h Hin. rewrite Hpe1. apply Hpend. rewrite <- Hlh1. exact Hin. }
   exists gs'. split; [exact HQS'|]. split; [rewrite Ho, replay_hist_app, Hrep1; exact HTI'|]. split; [rewrite <- Hpe1, <- Hlh1; exact Hh'|]. split; [congruence|].
-  split; [|rewrite Ho, adv_frames_app, Hadv1, Hrep1; exact HTR'].
+  split; [|split; [rewrite Ho, adv_frames_app, Hadv1, Hrep1; exact HTR'|]].
+  2:{ intros HO. destruct Hout' as (HO' & rounds & Q1 & Q2).
+      { intros Hr1. rewrite Hrm1 in Hr1. eapply OI_same; [exact (HO Hr1)|exact Hog1|exact Hls1|exact Hlh1|reflexivity]. }
+      split; [exact HO'|]. rewrite Q1, Hrs1. cbn [app]. rewrite <- Hlh1. exact Q2. }
   apply (spec_sent_step p gs gs' cf); [exact Hsok| | |congruence| |].
   - apply (cf_bound _ w d p gs cf HQS). unfold confirmed_frame in *. rewrite <- Hst1. exact Ecf.
   - apply (hist_step_grows_gs _ _ _ _ _ Hh').
@@ -1062,6 +1192,77 @@ Qed.
    (dense: SessionProofs.JI; sparse: SessionSparse.JS with SessionSparse2.SX).  What the mode has to supply:
    every operation inside the space succeeds and keeps CI (CI_step), and advance_frame keeps the timeline
    invariant TI (CI_adv). *)
+(* ---------- what a run sends to the remote players ---------- *)
+Lemma OI_same_local : forall p p' gs gs', OI p gs -> ps_outgoing p' = ps_outgoing p ->
+  ps_last_sent_out p' = ps_last_sent_out p -> local_handles p' = local_handles p ->
+  (forall h gh', In h (local_handles p) -> nth_error gs' (Z.to_nat h) = Some gh' ->
+     exists gh, nth_error gs (Z.to_nat h) = Some gh /\ fst gh = fst gh') -> OI p' gs'.
+Proof.
+  intros p p' gs gs' [A B C D] E1 E2 E3 E4.
+  constructor; unfold out_entry in *; rewrite ?E1, ?E2, ?E3; try assumption.
+  intros h gh' Hin Hg. destruct (E4 h gh' Hin Hg) as (gh & G0 & G1). rewrite <- G1. exact (D h gh Hin G0).
+Qed.
+
+Lemma ev_input_out : forall p pl f v p', ev_input p pl f v = Ok p' ->
+  ps_outgoing p' = ps_outgoing p /\ ps_last_sent_out p' = ps_last_sent_out p /\ local_handles p' = local_handles p /\
+  ps_remotes p' = ps_remotes p.
+Proof.
+  intros p pl f v p' E. unfold ev_input in E. destruct (negb _); [discriminate|].
+  destruct (cs_disc _); [injection E as <-; repeat split|]. destruct (negb _); [discriminate|].
+  apply res_bind_ok in E. destruct E as (s' & _ & E). injection E as <-. repeat split.
+Qed.
+
+Lemma rounds_ok_grows : forall L gs gs' R, grows_gs gs gs' -> rounds_ok L gs R -> rounds_ok L gs' R.
+Proof.
+  intros L gs gs' R (_ & Hg) H. unfold rounds_ok in *. eapply Forall_impl; [|exact H].
+  intros m (f & Hf & Hr). exists f. split; [exact Hf|]. intros h gh' Hin Hn.
+  destruct (Hg _ _ Hn) as (gh & ext & A & B). destruct (Hr h gh Hin A) as (R1 & R2).
+  rewrite B. split; [unfold hlen in *; rewrite app_length; lia|]. rewrite hval_app_l by lia. exact R2.
+Qed.
+
+Lemma local_handles_kinds : forall p p', ps_nplayers p = Z.of_nat (length (ps_kinds p)) ->
+  ps_nplayers p' = Z.of_nat (length (ps_kinds p')) -> ps_kinds p' = ps_kinds p -> local_handles p' = local_handles p.
+Proof.
+  intros p p' Hn Hn' Hk. unfold local_handles. rewrite Hk. apply filter_ext_in. intros h Hin.
+  apply zrange_in in Hin. unfold kind_at. rewrite Hk in Hn'.
+  assert ((h <? 0) = false) as -> by lia. assert ((h <? ps_nplayers p') = true) as -> by lia.
+  assert ((h <? ps_nplayers p) = true) as -> by lia. rewrite Hk. reflexivity.
+Qed.
+
+Lemma rounds_ok_ext : forall L gs gs' R, map fst gs' = map fst gs -> rounds_ok L gs R -> rounds_ok L gs' R.
+Proof.
+  intros L gs gs' R Hm H. apply (rounds_ok_grows L gs gs' R); [|exact H]. split.
+  - pose proof (f_equal (@length _) Hm) as X. rewrite !map_length in X. exact X.
+  - intros h g' Hn. destruct (map_fst_nth gs gs' h g' Hm Hn) as (g0 & A & B). exists g0, []. rewrite app_nil_r. split; [exact A|]. congruence.
+Qed.
+
+Lemma OI_start : forall sp n w d kinds eps nspec, OIg (session_start n w sp d kinds eps nspec) (repeat ([], 0) (Z.to_nat n)).
+Proof.
+  intros sp n w d kinds eps nspec _. constructor.
+  - constructor.
+  - cbn. unfold NULL. lia.
+  - intros f m H. cbn in H. discriminate.
+  - intros h gh _ Hg. apply nth_error_In, repeat_spec in Hg. subst gh. cbn [fst]. split; [cbn; unfold hlen, NULL; cbn; lia|].
+    intros f Hf. cbn in Hf. assert ((f <? hlen []) = false) as -> by (unfold hlen, NULL in *; cbn in *; lia). unfold out_entry. cbn. reflexivity.
+Qed.
+
+(* an arriving remote input is labelled with the frame after the last one held for that player *)
+Lemma remote_label : forall sp w d p gs pl f v hist low, QSg sp w d p gs -> op_ok p (SRemote pl f v) = true ->
+  nth_error gs (Z.to_nat pl) = Some (hist, low) -> f = hlen hist /\ 0 <= pl /\
+  exists e, nth_error (ps_kinds p) (Z.to_nat pl) = Some (KRemote e).
+Proof.
+  intros sp w d p gs pl f v hist low HQS Hok Eg. cbn [op_ok] in Hok.
+  apply andb_prop in Hok. destruct Hok as [Hok _]. apply andb_prop in Hok. destruct Hok as [Hok H4].
+  apply andb_prop in Hok. destruct Hok as [Hok H3]. apply andb_prop in Hok. destruct Hok as [H1 H2].
+  pose proof (qs_qs _ _ _ _ HQS) as HQ. pose proof (QsI_length _ _ _ _ HQ) as Hlq.
+  destruct (nth_error_some_len (s_queues (ps_sync p)) gs (Z.to_nat pl) (hist, low) Hlq Eg) as (q & Eq).
+  pose proof (Forall2_nth _ _ _ _ _ _ HQ Eq Eg) as Hqi. cbn [fst snd] in Hqi.
+  pose proof (ri_last _ _ _ (qi_ring _ _ _ _ _ Hqi)) as Hla.
+  assert (Hqn : qnth (ps_sync p) pl = q) by (unfold qnth; erewrite nth_error_nth; [reflexivity|exact Eq]).
+  rewrite Hqn in H4. split; [lia|]. split; [lia|].
+  destruct (nth_error (ps_kinds p) (Z.to_nat pl)) as [[|e|e]|]; try discriminate. eauto.
+Qed.
+
 Section Generic.
 Variable sp : bool.
 Variable CI : Z -> p2p -> game -> Prop.
@@ -1074,7 +1275,7 @@ Hypothesis CI_adv : forall p gs g w d p' o r G,
   Forall (fun c => cs_last c + 1 < I32MAX) (ps_status p) -> TI p gs G ->
   exists gs', QSg sp w d p' gs' /\ TI p' gs' (replay_hist G (o_requests o)) /\
     hist_step d (ps_pending p) (local_handles p) gs gs' /\ ps_kinds p' = ps_kinds p /\ spec_step p gs' o p' /\
-    Forall (truthful_lt (s_current (ps_sync p')) gs') (adv_frames G (o_requests o)).
+    Forall (truthful_lt (s_current (ps_sync p')) gs') (adv_frames G (o_requests o)) /\ sends_adv p gs gs' p' o.
 Hypothesis CI_frame : forall w p g, CI w p g -> gframe g = s_current (ps_sync p).
 Hypothesis CI_start : forall n w d kinds eps nspec, 1 <= w -> CI w (session_start n w sp d kinds eps nspec) (game0 w).
 (* every lemma of this section takes the first three hypotheses (and the predictor's laws), whether its proof
@@ -1157,7 +1358,7 @@ Proof.
     destruct (CI_step p gs g w d SAdvance HQS HJI Hok) as (s0 & g' & Es0 & Ex & HJ').
     cbn [sstep] in Es0. destruct (advance predict p) as [[[p' o] r]| |] eqn:E; cbn [res_bind] in Es0; try discriminate. injection Es0 as <-.
     cbn [sr_state sr_out] in Ex, HJ'.
-    destruct (CI_adv p gs g w d p' o r (g_hist g) E HQS HJI Hbnd Hbnd1 HTI) as (gs' & HQ' & HTI' & Hh' & Hkk' & Hss' & HTR').
+    destruct (CI_adv p gs g w d p' o r (g_hist g) E HQS HJI Hbnd Hbnd1 HTI) as (gs' & HQ' & HTI' & Hh' & Hkk' & Hss' & HTR' & _).
     cbn [sstep]. rewrite ?E. cbn [res_bind].
     exists (mksr p' o r), gs', g'. cbn [sr_state sr_out]. split; [reflexivity|]. split; [exact HQ'|]. split; [exact Ex|].
     split; [exact HJ'|]. split; [rewrite (exec_hist _ _ _ _ Ex); exact HTI'|]. split; [exact Hh'|split; [exact Hkk'|split; [exact Hss'|exact HTR']]].
@@ -1497,6 +1698,176 @@ Proof.
   rewrite R1, Hext. unfold hlen in *. rewrite app_length. lia.
 Qed.
 
+
+(* step_timeline_g, plus the rounds of local inputs the call hands to the remote players *)
+Lemma step_sends_g : forall p gs g w d o,
+  QSg sp w d p gs -> CI w p g -> TI p gs (g_hist g) -> op_ok p o = true ->
+  exists s gs' g', sstep predict p o = Ok s /\ QSg sp w d (sr_state s) gs' /\
+    exec w g (o_requests (sr_out s)) = Some g' /\ CI w (sr_state s) g' /\ TI (sr_state s) gs' (g_hist g') /\
+    op_hist d p o gs gs' /\ ps_kinds (sr_state s) = ps_kinds p /\ sends_adv p gs gs' (sr_state s) (sr_out s).
+Proof.
+  clear CI_start.
+  intros p gs g w d o HQS HJI HTI Hok.
+  destruct (match o with SAdvance => true | _ => false end) eqn:Eo.
+  - destruct o; try discriminate. cbn [op_ok] in Hok.
+    assert (Hbnd : Forall (fun c => cs_last c < I32MAX) (ps_status p)).
+    { apply Forall_forall. intros s0 Hs0. rewrite forallb_forall in Hok. specialize (Hok s0 Hs0). lia. }
+    assert (Hbnd1 : Forall (fun c => cs_last c + 1 < I32MAX) (ps_status p)).
+    { apply Forall_forall. intros s0 Hs0. rewrite forallb_forall in Hok. specialize (Hok s0 Hs0). lia. }
+    destruct (CI_step p gs g w d SAdvance HQS HJI Hok) as (s0 & g' & Es0 & Ex & HJ').
+    cbn [sstep] in Es0. destruct (advance predict p) as [[[p' o] r]| |] eqn:E; cbn [res_bind] in Es0; try discriminate. injection Es0 as <-.
+    cbn [sr_state sr_out] in Ex, HJ'.
+    destruct (CI_adv p gs g w d p' o r (g_hist g) E HQS HJI Hbnd Hbnd1 HTI) as (gs' & HQ' & HTI' & Hh' & Hkk' & _ & _ & Hsd).
+    cbn [sstep]. rewrite ?E. cbn [res_bind].
+    exists (mksr p' o r), gs', g'. cbn [sr_state sr_out]. split; [reflexivity|]. split; [exact HQ'|]. split; [exact Ex|].
+    split; [exact HJ'|]. split; [rewrite (exec_hist _ _ _ _ Ex); exact HTI'|]. split; [exact Hh'|split; [exact Hkk'|exact Hsd]].
+  - destruct (step_timeline_g p gs g w d o HQS HJI HTI Hok) as (s & gs' & g' & Es & HQ' & Ex & HJ' & HT' & Hop & Hk & _ & _).
+    exists s, gs', g'. split; [exact Es|]. split; [exact HQ'|]. split; [exact Ex|]. split; [exact HJ'|]. split; [exact HT'|].
+    split; [exact Hop|]. split; [exact Hk|].
+    destruct o as [h v|pl f v|ep st|hs|h|h dd|]; cbn [op_ok] in Hok; try discriminate; cbn [op_hist] in Hop; cbn [sstep] in Es.
+    + subst gs'. unfold api_add_local_input in Es. intros HO.
+      destruct (kind_at p h) as [[| |]|]; injection Es as <-; cbn [sr_state sr_out out0 o_remote_sends];
+        (split; [intros Hr; eapply OI_same; [exact (HO Hr)|reflexivity|reflexivity|reflexivity|reflexivity]|constructor]).
+    + apply res_bind_ok in Es. destruct Es as (p' & Ee & Es). injection Es as <-. cbn [sr_state sr_out out0 o_remote_sends].
+      destruct (ev_input_out _ _ _ _ _ Ee) as (X1 & X2 & X3 & X4).
+      destruct Hop as (hist & low & Eg & ->). intros HO. split; [|constructor]. intros Hr. rewrite X4 in Hr.
+      apply (OI_same_local p p' gs _ (HO Hr) X1 X2 X3).
+      intros h0 gh' Hin Hn.
+      apply (local_handles_spec p h0 (QS_nplayers _ _ _ _ _ HQS)) in Hin. destruct Hin as (Hr0 & Hk0).
+      apply andb_prop in Hok. destruct Hok as [Hok _]. apply andb_prop in Hok. destruct Hok as [Hok _].
+      apply andb_prop in Hok. destruct Hok as [Hok H3]. apply andb_prop in Hok. destruct Hok as [H1 H2].
+      destruct (nth_error (ps_kinds p) (Z.to_nat pl)) as [[|e|e]|] eqn:Ek; try discriminate.
+      assert (Z.to_nat pl <> Z.to_nat h0) by (intros Eq; rewrite Eq in Ek; congruence).
+      rewrite nth_error_updz_other in Hn by assumption. exists gh'. split; [exact Hn|reflexivity].
+    + injection Es as <-. subst gs'. cbn [sr_state sr_out out0 o_remote_sends]. intros HO. split; [|constructor].
+      intros Hr. assert (Hr0 : ps_remotes p <> []).
+      { intros E0. apply Hr. unfold gossip. rewrite E0. destruct (Z.to_nat ep); cbn [nth_error]; exact E0. }
+      eapply OI_same; [exact (HO Hr0)| | | |reflexivity]; unfold gossip; destruct (nth_error (ps_remotes p) (Z.to_nat ep)); reflexivity.
+Qed.
+
+(* all the rounds of inputs a run hands to the remote players *)
+Definition all_sends (outs : list (pout * apires)) : list (list (Z * pinput)) :=
+  flat_map (fun oa => o_remote_sends (fst oa)) outs.
+
+(* the run theorem for what leaves and what arrives: every round handed to the remote players is a frame together
+   with, for every local player, the input the session holds (and simulates) for that player and frame; every
+   remote input (player, frame, value) that arrived is held as that player's input for that frame *)
+Theorem run_sends_g : forall ops p gs g w d,
+  QSg sp w d p gs -> CI w p g -> TI p gs (g_hist g) -> OIg p gs ->
+  srun_in predict p ops = Err \/
+  exists p' outs gs' g', srun_in predict p ops = Ok (p', outs) /\ exec_outs w g outs = Some g' /\
+    QSg sp w d p' gs' /\ CI w p' g' /\ TI p' gs' (g_hist g') /\ OIg p' gs' /\ grows_gs gs gs' /\
+    ps_kinds p' = ps_kinds p /\ rounds_ok (local_handles p) gs' (all_sends outs) /\
+    (forall pl f v, In (SRemote pl f v) ops ->
+      exists gh, nth_error gs' (Z.to_nat pl) = Some gh /\ 0 <= f < hlen (fst gh) /\ hval (fst gh) f = v) /\
+    (forall pl e gh gh' f, 0 <= pl -> nth_error (ps_kinds p) (Z.to_nat pl) = Some (KRemote e) ->
+      nth_error gs (Z.to_nat pl) = Some gh -> nth_error gs' (Z.to_nat pl) = Some gh' ->
+      hlen (fst gh) <= f < hlen (fst gh') -> In (SRemote pl f (hval (fst gh') f)) ops).
+Proof.
+  clear CI_start.
+  induction ops as [|o ops IH]; intros p gs g w d HQS HJI HTI HO.
+  - right. exists p, [], gs, g. cbn [srun_in exec_outs all_sends flat_map]. split; [reflexivity|]. split; [reflexivity|].
+    split; [exact HQS|]. split; [exact HJI|]. split; [exact HTI|]. split; [exact HO|]. split; [apply grows_gs_refl|].
+    split; [reflexivity|]. split; [constructor|]. split; [intros pl f v []|].
+    intros pl e gh gh' f _ _ A B Hf. rewrite A in B. injection B as <-. lia.
+  - cbn [srun_in]. destruct (op_ok p o) eqn:Hok; [|left; reflexivity].
+    destruct (step_sends_g p gs g w d o HQS HJI HTI Hok) as (s & gs1 & g1 & Es & HQ1 & Ex1 & HJ1 & HT1 & Hop & Hk1 & Hsd).
+    rewrite Es. cbn [res_bind]. destruct (Hsd HO) as (HO1 & Hr1).
+    assert (Hnp1 : ps_nplayers (sr_state s) = ps_nplayers p).
+    { rewrite (QS_nplayers _ _ _ _ _ HQ1), (QS_nplayers _ _ _ _ _ HQS), Hk1. reflexivity. }
+    pose proof (op_hist_grows_g w d p o gs gs1 (sr_state s) HQS HQ1 Hnp1 Hop) as Hg1.
+    pose proof (local_handles_kinds p (sr_state s) (QS_nplayers _ _ _ _ _ HQS) (QS_nplayers _ _ _ _ _ HQ1) Hk1) as Hlh1.
+    destruct (IH (sr_state s) gs1 g1 w d HQ1 HJ1 HT1 HO1) as [Herr|(p' & outs & gs' & g' & E1 & Ex & HQ' & HJ' & HT' & HO' & Hg' & Hk' & Hr' & Hd' & Hc')].
+    + left. rewrite Herr. reflexivity.
+    + right. rewrite E1. cbn [res_bind].
+      exists p', ((sr_out s, sr_api s) :: outs), gs', g'. split; [reflexivity|].
+      split; [cbn [exec_outs]; rewrite Ex1; exact Ex|]. split; [exact HQ'|]. split; [exact HJ'|]. split; [exact HT'|].
+      split; [exact HO'|]. split; [eapply grows_gs_trans; eassumption|]. split; [congruence|]. split; [|split].
+      * cbn [all_sends flat_map fst]. apply Forall_app. split.
+        -- eapply rounds_ok_grows; [exact Hg'|exact Hr1].
+        -- rewrite <- Hlh1. exact Hr'.
+      * intros pl f v [->|Hin]; [|exact (Hd' pl f v Hin)].
+        (* the input that arrived with this very operation *)
+        cbn [op_hist] in Hop. destruct Hop as (hist & low & Eg & ->).
+        destruct (remote_label _ _ _ _ _ _ _ _ _ _ HQS Hok Eg) as (Hf & _ & _).
+        assert (Hl : (Z.to_nat pl < length gs)%nat) by (apply nth_error_Some; congruence).
+        destruct Hg' as (Hlen' & Hg').
+        destruct (nth_error gs' (Z.to_nat pl)) as [gh'|] eqn:En'; [|apply nth_error_None in En'; rewrite Hlen', updz_length in En'; lia].
+        destruct (Hg' _ _ En') as (gh1 & ext & A & B). rewrite nth_error_updz_same in A by exact Hl. injection A as <-. cbn [fst] in B.
+        exists gh'. split; [reflexivity|]. rewrite B, Hf. assert (0 <= hlen hist) by (unfold hlen; lia).
+        split; [unfold hlen in *; rewrite !app_length; cbn [length]; lia|].
+        rewrite hval_app_old by (rewrite hlen_app; lia). apply hval_app_new.
+      * (* every input held for a remote player beyond those held at the start arrived with an operation of the run *)
+        intros pl e gh gh' f Hpl Hkp Ag Ag' Hf.
+        assert (Hkp1 : nth_error (ps_kinds (sr_state s)) (Z.to_nat pl) = Some (KRemote e)) by (rewrite Hk1; exact Hkp).
+        assert (Hcase : (exists gh1, nth_error gs1 (Z.to_nat pl) = Some gh1 /\ fst gh1 = fst gh) \/
+                        (exists v0 low, o = SRemote pl (hlen (fst gh)) v0 /\ nth_error gs1 (Z.to_nat pl) = Some (fst gh ++ [v0], low))).
+        { pose proof Hok as Hok0.
+          destruct o as [h v|pl' f0 v0|ep st|hs|h|h dd|]; cbn [op_ok] in Hok; try discriminate; cbn [op_hist] in Hop.
+          - subst gs1. left. eauto.
+          - destruct Hop as (hist & low & Eg & ->).
+            destruct (remote_label _ _ _ _ _ _ _ _ _ _ HQS Hok0 Eg) as (Hf0 & Hpl' & _).
+            destruct (Z.eq_dec pl' pl) as [->|Hne].
+            + right. rewrite Ag in Eg. injection Eg as ->. cbn [fst]. exists v0, low. split; [rewrite Hf0; reflexivity|].
+              apply nth_error_updz_same. apply nth_error_Some. congruence.
+            + left. exists gh. split; [|reflexivity]. rewrite nth_error_updz_other by lia. exact Ag.
+          - subst gs1. left. eauto.
+          - destruct (nth_error gs1 (Z.to_nat pl)) as [gh1|] eqn:A1.
+            2:{ apply nth_error_None in A1. destruct Hg1 as (L1 & _). assert (Z.to_nat pl < length gs)%nat by (apply nth_error_Some; congruence). lia. }
+            left. exists gh1. split; [reflexivity|].
+            destruct (Hop _ _ A1) as (gh0 & A0 & [B0|(Hin & _)]); [rewrite Ag in A0; injection A0 as <-; exact B0|].
+            rewrite Z2Nat.id in Hin by lia.
+            apply (local_handles_spec p pl (QS_nplayers _ _ _ _ _ HQS)) in Hin. destruct Hin as (_ & Hkl). congruence. }
+        destruct Hcase as [(gh1 & A1 & B1)|(v0 & low & -> & A1)].
+        -- right. apply (Hc' pl e gh1 gh' f Hpl Hkp1 A1 Ag'). rewrite B1. exact Hf.
+        -- destruct (Z.eq_dec f (hlen (fst gh))) as [->|Hne].
+           ++ left. f_equal. destruct Hg' as (_ & Hg'). destruct (Hg' _ _ Ag') as (gh1 & ext & A & B).
+              rewrite A1 in A. injection A as <-. cbn [fst] in B. rewrite B.
+              assert (0 <= hlen (fst gh)) by (unfold hlen; lia).
+              rewrite hval_app_old by (rewrite hlen_app; lia). symmetry. apply hval_app_new.
+           ++ right. apply (Hc' pl e _ gh' f Hpl Hkp1 A1 Ag'). cbn [fst]. rewrite hlen_app. lia.
+Qed.
+
+(* from the initial state: what a session sends for its local players is what it simulates for them, and what it
+   received for a remote player is what it simulates for that player - at every confirmed, simulated frame *)
+Theorem sends_and_receipts_g : forall ops n w d kinds eps nspec p outs,
+  1 <= w -> 0 <= d -> w + d + 3 <= QLEN -> 0 < n -> Z.of_nat (length kinds) = n -> players_only kinds ->
+  srun_in predict (session_start n w sp d kinds eps nspec) ops = Ok (p, outs) ->
+  exists g gs, exec_outs w (game0 w) outs = Some g /\ QSg sp w d p gs /\ gframe g = s_current (ps_sync p) /\
+    (forall h hist low f, nth_error gs h = Some (hist, low) ->
+       0 <= f <= s_last_confirmed (ps_sync p) -> f < s_current (ps_sync p) ->
+       f < hlen hist /\ gvalL (g_hist g) f h = hval hist f) /\
+    rounds_ok (local_handles p) gs (all_sends outs) /\
+    (forall pl f v, In (SRemote pl f v) ops ->
+      exists gh, nth_error gs (Z.to_nat pl) = Some gh /\ 0 <= f < hlen (fst gh) /\ hval (fst gh) f = v) /\
+    (forall pl e gh f, 0 <= pl -> nth_error kinds (Z.to_nat pl) = Some (KRemote e) ->
+      nth_error gs (Z.to_nat pl) = Some gh -> 0 <= f < hlen (fst gh) -> In (SRemote pl f (hval (fst gh) f)) ops) /\
+    ps_kinds p = kinds.
+Proof using All.
+  intros ops n w d kinds eps nspec p outs Hw Hd Hcap Hn Hlen Hpl H.
+  pose proof (QS_start_gen sp n w d kinds eps nspec Hw Hd Hcap Hn Hlen Hpl) as HQ0.
+  destruct (run_sends_g ops _ _ (game0 w) w d HQ0 (CI_start n w d kinds eps nspec Hw) (TI_start_g n w d kinds eps nspec)
+              (OI_start sp n w d kinds eps nspec))
+    as [E|(p' & outs' & gs & g & E1 & Ex & HQS & HJ & (HG & HGI & _) & _ & _ & Hk & Hr & Hdl & Hcv)]; [congruence|].
+  rewrite H in E1. injection E1 as <- <-.
+  exists g, gs. split; [exact Ex|]. split; [exact HQS|]. split; [exact (CI_frame _ _ _ HJ)|]. split; [|split; [|split; [exact Hdl|split; [|exact Hk]]]].
+  3:{ intros pl e gh f Hpl0 Hkp Ag Hf.
+      assert (Hl0 : (Z.to_nat pl < Z.to_nat n)%nat).
+      { assert (nth_error kinds (Z.to_nat pl) <> None) as X by congruence. apply nth_error_Some in X. lia. }
+      apply (Hcv pl e ([], 0) gh f Hpl0); [exact Hkp| |exact Ag|cbn [fst]; unfold hlen in *; cbn [length]; lia].
+      apply nth_error_repeat. exact Hl0. }
+  - intros h hist low f Eg Hf Hfc.
+    pose proof (qs_qs _ _ _ _ HQS) as HQ. pose proof (QsI_length _ _ _ _ HQ) as Hlq.
+    destruct (nth_error_some_len (s_queues (ps_sync p)) gs h (hist, low) Hlq Eg) as (q & Eq).
+    pose proof (Forall2_nth _ _ _ _ _ _ HQ Eq Eg) as Hqi. cbn [fst snd] in Hqi.
+    pose proof (qi_conf _ _ _ _ _ Hqi) as Hcf.
+    split; [lia|].
+    apply (gq_known _ _ _ _ _ (HGI h q (hist, low) Eq Eg)); [lia|cbn [fst]; lia|].
+    destruct (Z.eq_dec (q_first_incorrect q) NULL) as [En|En]; [left; exact En|right].
+    destruct (qi_p4 _ _ _ _ _ Hqi En) as (_ & (A & _) & _). lia.
+  - rewrite (local_handles_kinds _ p (QS_nplayers _ _ _ _ _ HQ0) (QS_nplayers _ _ _ _ _ HQS) Hk). exact Hr.
+Qed.
+
 Unset Default Proof Using.
 End Generic.
 
@@ -1516,6 +1887,8 @@ Proof. intros w p g (_ & H). exact (ji_frame _ _ _ H). Qed.
 
 Definition step_timeline := step_timeline_g false JI1 dense_CI_step advance_timeline JI1_frame.
 Definition run_timeline := run_timeline_g false JI1 dense_CI_step advance_timeline JI1_frame.
+Definition run_sends := run_sends_g false JI1 dense_CI_step advance_timeline JI1_frame.
+Definition sends_and_receipts := sends_and_receipts_g false JI1 dense_CI_step advance_timeline JI1_frame dense_CI_start.
 Definition confirmed_frames_use_held_inputs :=
   confirmed_frames_use_held_inputs_g false JI1 dense_CI_step advance_timeline JI1_frame dense_CI_start.
 Definition confirmed_frames_use_delivered_inputs :=
